@@ -186,6 +186,7 @@ def build(repo):
                                            ('no Jacobian at the x0 exit:: isnone(result[3])', 'C11')],
                         'break@while#0': [
                    ('trial point offered or NaN:: not G.pending or G.nanflag', 'C04', 'C08'),
+                   ('a run that ends on a NaN evaluation is flagged as an evaluation error:: implies(G.pending, exit_info.flag == EXIT_EVAL_ERROR)', 'C08'),
                    ('run accounting:: nruns_so_far == old(nruns_so_far) + G.restarts - old(G.restarts) + 1', 'C10'),
                    ('exit reason set:: not isnone(exit_info)', 'C07', 'C10'),
                    ('exit flag is a run-time flag:: flag_ok(exit_info)', 'C07', 'C10'),
@@ -247,3 +248,90 @@ def build(repo):
                      'Controller.move_furthest_points', 'Controller.move_furthest_points_momentum', 'Controller.soft_restart',
                      'Controller.choose_point_to_replace', 'Controller.calculate_ratio', 'solve_main', 'solve']
     return D
+
+
+def extra_obligations(repo, D, pid):
+    """syntactic, whole-package obligations of the ledger bundle"""
+    import ast, z3
+    from pyvc.core import Ob
+    out = []
+    # C08 (v) exception transparency: no try body (transitively) reaches the user's residual function, and there is no finally / with
+    targets = {'objfun', 'eval_least_squares_with_regularisation', 'evaluate_objective'}
+    for qual, fi in sorted(repo.funcs.items()):
+        if fi.module == 'hessian':
+            continue
+        k = 0
+        for n in ast.walk(fi.node):
+            if isinstance(n, ast.Try):
+                k += 1
+                bad = []
+                if n.finalbody:
+                    bad.append('finally')
+                for c in ast.walk(ast.Module(body=n.body, type_ignores=[])):
+                    if isinstance(c, ast.Call):
+                        nm = c.func.id if isinstance(c.func, ast.Name) else (c.func.attr if isinstance(c.func, ast.Attribute) else None)
+                        if nm in targets:
+                            bad.append(nm)
+                        else:
+                            quals = [nm] if nm in repo.funcs else [cl + '.' + nm for cl in repo.resolve_method(nm or '')]
+                            if nm in repo.classes:
+                                quals = [nm + '.__init__']
+                            for q in quals:
+                                if repo.reaches(q, targets):
+                                    bad.append(q)
+                out.append(Ob('%s/frame[try#%d body does not reach objfun]' % (qual, k), 'frame', qual, ['C08'], [], z3.BoolVal(not bad), n.lineno,
+                              'unsat', {'syntactic': True, 'why': ', '.join(bad)}))
+            elif isinstance(n, (ast.With, ast.AsyncWith)):
+                out.append(Ob('%s/frame[no with-statement]' % qual, 'frame', qual, ['C08'], [], z3.BoolVal(False), n.lineno, 'unsat', {'syntactic': True}))
+    # C02 frame: nf / nx are written, and the evaluation choke point is called, only where the ledger contracts say so
+    writers = {'nf': set(), 'nx': set()}
+    callers = set()
+    for qual, fi in repo.funcs.items():
+        if fi.module == 'hessian':
+            continue
+        for n in ast.walk(fi.node):
+            tg = []
+            if isinstance(n, ast.Assign):
+                tg = n.targets
+            elif isinstance(n, ast.AugAssign):
+                tg = [n.target]
+            for t in tg:
+                for x in (t.elts if isinstance(t, (ast.Tuple, ast.List)) else [t]):
+                    if isinstance(x, ast.Attribute) and x.attr in writers:
+                        writers[x.attr].add(qual)
+            if isinstance(n, ast.Call):
+                nm = n.func.id if isinstance(n.func, ast.Name) else (n.func.attr if isinstance(n.func, ast.Attribute) else None)
+                if nm == 'eval_least_squares_with_regularisation':
+                    callers.add(qual)
+                if nm == 'objfun':
+                    callers.add('objfun<-' + qual)
+    allowed_w = {'Controller.__init__', 'Controller.evaluate_objective', 'OptimResults.__init__'}
+    for f in ('nf', 'nx'):
+        extra = sorted(writers[f] - allowed_w)
+        out.append(Ob('package/frame[only the choke point writes .%s]' % f, 'frame', 'package', ['C02', 'C08'], [], z3.BoolVal(not extra), 0, 'unsat',
+                      {'syntactic': True, 'why': ', '.join(extra)}))
+    extra = sorted(callers - {'Controller.evaluate_objective', 'solve_main', 'objfun<-eval_least_squares_with_regularisation'})
+    out.append(Ob('package/frame[objfun is called only through the evaluation choke point]', 'frame', 'package', ['C02', 'C08'], [], z3.BoolVal(not extra), 0,
+                  'unsat', {'syntactic': True, 'why': ', '.join(extra)}))
+    # C02: calls that share a point number receive the identical x: inside the two sampling loops neither the point nor the scaling is re-bound
+    for qual, names in (('Controller.evaluate_objective', {'x'}), ('solve_main', {'x0', 'scaling_changes'})):
+        fi = repo.func(qual)
+        ok = fi is not None
+        why = ''
+        if fi is not None:
+            for lp in ast.walk(fi.node):
+                if isinstance(lp, ast.For) and any(isinstance(c, ast.Call) and getattr(c.func, 'id', None) == 'eval_least_squares_with_regularisation'
+                                                   for c in ast.walk(lp)):
+                    assigned = {n.id for n in ast.walk(lp) if isinstance(n, ast.Name) and isinstance(n.ctx, ast.Store)}
+                    attrs = {n.attr for n in ast.walk(lp) if isinstance(n, ast.Attribute) and isinstance(n.ctx, ast.Store)}
+                    if assigned & names or 'scaling_changes' in attrs:
+                        ok, why = False, 're-bound in the sampling loop: %s' % sorted((assigned & names) | (attrs & {'scaling_changes'}))
+                    for c in ast.walk(lp):
+                        if isinstance(c, ast.Call) and getattr(c.func, 'id', None) == 'eval_least_squares_with_regularisation':
+                            a1 = ast.unparse(c.args[1]) if len(c.args) > 1 else ''
+                            exp = 'remove_scaling(%s, %s)' % (('x', 'self.scaling_changes') if qual.startswith('Controller') else ('x0', 'scaling_changes'))
+                            if a1 != exp:
+                                ok, why = False, 'sample call evaluates %s, expected %s' % (a1, exp)
+        out.append(Ob('%s/frame[every sample of a point is evaluated at the identical x]' % qual, 'frame', qual, ['C02'], [], z3.BoolVal(ok), 0, 'unsat',
+                      {'syntactic': True, 'why': why}))
+    return out
